@@ -791,7 +791,11 @@ def _reader_by_value(F, D):
     kinds = [
         ("e5d6 pawn takes onto an empty square", "e5d6", {(4, 4): wp}, "EnPassant", dict(start_col=("lit", 4), end_col=("lit", 3))),
         ("e5d6 pawn takes a piece", "e5d6", {(4, 4): wp, (5, 3): bn}, "Normal", dict(start=("pos", 4, 4), end=("pos", 5, 3), captured_piece=bn)),
+        # (files and ranks that differ, so that a row read for a column does not pass by coincidence)
+        ("b5a6 pawn takes onto an empty square", "b5a6", {(4, 1): wp}, "EnPassant", dict(start_col=("lit", 1), end_col=("lit", 0))),
+        ("g5h6 pawn takes onto an empty square", "g5h6", {(4, 6): wp}, "EnPassant", dict(start_col=("lit", 6), end_col=("lit", 7))),
         ("e5e6 pawn push", "e5e6", {(4, 4): wp}, "Normal", dict(start=("pos", 4, 4), end=("pos", 5, 4), captured_piece=NONE_)),
+        ("b2b4 pawn double push", "b2b4", {(1, 1): wp}, "Normal", dict(start=("pos", 1, 1), end=("pos", 3, 1), captured_piece=NONE_)),
         ("c3d5 knight move", "c3d5", {(2, 2): wn}, "Normal", dict(start=("pos", 2, 2), end=("pos", 4, 3), captured_piece=NONE_)),
         ("c3b4 queen-like step of a knight-less square", "c3b4", {(2, 2): wn}, "Normal", dict(start=("pos", 2, 2), end=("pos", 3, 1))),
     ]
